@@ -114,7 +114,10 @@ class Check(PropertyCheck):
     technique = "Lean 4 proof (Incremental/Lawful instance, parser inversion, simulation of the deferred machine) + differential correspondence through world.py"
     rule = ("streams = greeting [+ RFC1929 auth] + request + trailing data, built from a grammar (70%), with one-field "
             "mutations (wrong version at each stage, 0 methods, missing method, CMD/RSV/ATYP variants, domain length 0/255, "
-            "truncation at every offset) (20%) and raw bytes (10%); x environment (auth on/off, verdict T/F/credential-equal, "
+            "truncation at every offset) (20%) and raw bytes (10%); field sizes up to the 255 limits (methods, user, password, domain); "
+            "size classes: trailing data / whole stream / handshake-completing segment of 255..65537 bytes (±1 around 2^k, 1 KiB and "
+            "the 1032-byte maximal handshake), delivered whole, cut exactly at the request/data boundary, cut inside the handshake "
+            "and inside the data, 1-byte handshake; x environment (auth on/off, verdict T/F/credential-equal, "
             "eager/lazy, connect ok/fail, EOF) x segmentation (every segmentation for streams <= 9 bytes, every single "
             "split point, 1-byte mode, random cuts) x completion schedule. distinct = distinct case dict; non-trivial = stream non-empty.")
     budget = {"quick": 6000, "thorough": 400000}
@@ -483,7 +486,13 @@ class Check(PropertyCheck):
                "impl:" + o["phase"], f"auth{case['auth']}:{case['policy']}", f"eager{case['eager']}:ok{case['conn_ok']}",
                "segs:" + str(min(len(case.get("cuts") or []) + 1, 9))]
         if ref.get("dest"): out.append("atyp:" + str(ref["dest"][0]))
-        if ref["kind"] == "connect" and ref["trail"]: out.append("trailing-data")
+        if ref["kind"] == "connect" and ref["trail"]:
+            out.append("trailing-data")
+            tl = len(ref["trail"])
+            out.append("trail:" + ("<16" if tl < 16 else "<1K" if tl < 1000 else "~1K" if tl < 1100 else "<=4K" if tl <= 4200 else "<=64K+"))
+        n = len(unhx(case["data_hex"]))
+        segl = max((len(x) for x in segments(unhx(case["data_hex"]), case.get("cuts") or [])), default=0)
+        out.append("maxseg:" + ("<256" if segl < 256 else "<1K" if segl < 1000 else "~1K" if segl < 1100 else "<=4K" if segl <= 4200 else "<=64K+"))
         if case.get("eof"): out.append("eof")
         if any(p.startswith("authwait") or p.startswith("connwait") for p in [obs["async"]["phase"]]): out.append("async:unsettled?")
         if "C" in (case.get("sched") or []): out.append("sched:interleaved")
@@ -494,11 +503,16 @@ class Check(PropertyCheck):
 
     # ------------------------------------------------------------------ generation
     @staticmethod
-    def mk_stream(rng, auth, mut=None):
-        """returns (stream, truth|None, creds)"""
+    def mk_stream(rng, auth, mut=None, trail=None):
+        """returns (stream, truth|None, creds); `trail` overrides the bytes after the request"""
         needed = 2 if auth else 0
-        methods = [needed] + [rng.pick([0, 1, 2, 3, 0x80, 0xFE]) for _ in range(rng.randint(0, 3))]
-        rng.shuffle(methods)
+        # number of methods: mostly 1-4, sometimes at the size classes up to the 255 limit
+        n_extra = rng.pick([15, 126, 127, 253, 254]) if rng.chance(0.06) else rng.randint(0, 3)
+        methods = [needed] + [rng.pick([0, 1, 2, 3, 0x80, 0xFE]) for _ in range(n_extra)]
+        if n_extra > 3 and rng.chance(0.5):
+            methods = methods[1:] + [needed]          # the needed method is the very last one
+        else:
+            rng.shuffle(methods)
         ver = 5
         if mut == "greet-version": ver = rng.pick([4, 0, 0x47, 6, 0xFF])
         if mut == "no-methods": methods = []
@@ -510,8 +524,8 @@ class Check(PropertyCheck):
         send_auth = auth if mut != "auth-flip" else not auth
         if send_auth:
             alpha = b"abcXYZ019:\\ \xc3\xa9\xff\x00"
-            ul = rng.pick([0, 1, 2, 5, 255]) if rng.chance(0.15) else rng.randint(1, 6)
-            pl = rng.pick([0, 1, 2, 5, 255]) if rng.chance(0.15) else rng.randint(1, 6)
+            ul = rng.pick([0, 1, 2, 5, 127, 128, 254, 255]) if rng.chance(0.15) else rng.randint(1, 6)
+            pl = rng.pick([0, 1, 2, 5, 127, 128, 254, 255]) if rng.chance(0.15) else rng.randint(1, 6)
             user = bytes(rng.pick(alpha) for _ in range(ul)); pw = bytes(rng.pick(alpha) for _ in range(pl))
             av = 1 if mut != "auth-version" else rng.pick([0, 5, 2, 0xFF])
             s += bytes([av, ul]) + user + bytes([pl]) + pw
@@ -520,7 +534,7 @@ class Check(PropertyCheck):
         if atyp == 1: addr = rng.pick([bytes([127, 0, 0, 1]), bytes([0, 0, 0, 0]), bytes([255] * 4), rng.bytes_(4)])
         elif atyp == 4: addr = rng.pick([bytes(15) + b"\x01", bytes(16), bytes(10) + b"\xff\xff" + rng.bytes_(4), rng.bytes_(16)])
         else:
-            n = rng.randint(1, 12)
+            n = rng.pick([63, 64, 127, 128, 253, 254, 255]) if rng.chance(0.08) else rng.randint(1, 12)
             if mut == "domain-len": n = rng.pick([0, 255])
             dalpha = b"abcxyz.-019EXAMPLE"
             addr = bytes(rng.pick(dalpha) for _ in range(n))
@@ -531,9 +545,10 @@ class Check(PropertyCheck):
         if mut == "cmd": cmd = rng.pick([2, 3, 0, 0xFF])
         if mut == "rsv": rsv = rng.pick([1, 0xFF])
         req = bytes([rv, cmd, rsv, atyp]) + (bytes([len(addr)]) if atyp not in (1, 4) else b"") + addr + bytes([port >> 8, port & 255])
-        trail = b""
-        if rng.chance(0.7):
-            trail = rng.pick([b"GET / HTTP/1.1\r\n\r\n", b"\x16\x03\x01", b"\x05\x01\x00", bytes([rng.getrandbits(8)]), rng.bytes_(rng.randint(1, 9))])
+        if trail is None:
+            trail = b""
+            if rng.chance(0.7):
+                trail = rng.pick([b"GET / HTTP/1.1\r\n\r\n", b"\x16\x03\x01", b"\x05\x01\x00", bytes([rng.getrandbits(8)]), rng.bytes_(rng.randint(1, 9))])
         s += req + trail
         truth = None
         if mut is None:
@@ -585,7 +600,7 @@ class Check(PropertyCheck):
     def variants(self, rng, base, data, tier, n_rand):
         """segmentations x schedules of one stream"""
         n = len(data)
-        cutsets = [[], list(range(1, n))]
+        cutsets = [[], list(range(1, n)) if n <= 1500 else list(range(1, 600))]
         if n <= (9 if tier == "thorough" else 6):
             cutsets = [[i + 1 for i in range(n - 1) if (m >> i) & 1] for m in range(1 << max(0, n - 1))]
         elif tier == "thorough":
@@ -644,11 +659,57 @@ class Check(PropertyCheck):
             if truth: base["truth"] = truth
             yield from self.variants(rng, base, data, tier, 2 if tier == "quick" else 4)
 
+    # size / threshold classes: how much application data sits behind the request, how large the whole stream is and
+    # how large the segment is that completes the handshake (a limit on any of these is a segmentation dependence)
+    THRESHOLDS = [(30, [255, 256, 257, 511, 512, 513]), (40, [1023, 1024, 1025, 1031, 1032, 1033, 1034, 1500, 2048]),
+                  (20, [4095, 4096, 4097, 8192]), (6, [16384, 32768]), (2, [65535, 65536, 65537])]
+
+    def gen_sizes(self, rng, tier):
+        while True:
+            base = self.env(rng)
+            if rng.chance(0.8): base["conn_ok"] = 1
+            data0, truth, creds = self.mk_stream(rng, base["auth"], None, trail=b"")
+            self.set_policy(base, rng, creds)
+            if base["auth"] and not (base["policy"] == "T" or (base["policy"] == "E" and unhx(base["eu_hex"]) == creds[0]
+                                                              and unhx(base["ep_hex"]) == creds[1])):
+                truth = None
+            hs, g = len(data0), 2 + data0[1]
+            T = rng.pick(rng.weighted(self.THRESHOLDS)) + rng.pick([-1, 0, 0, 1])
+            # k: where the segment that completes the handshake starts (0 = whole stream, g = after the greeting, ...)
+            k = rng.pick([0, g, hs - 1, hs - rng.randint(1, max(1, min(hs - g, 10))), rng.randrange(hs)])
+            k = max(0, min(k, hs - 1))
+            measure = rng.pick(["trail", "total", "lastseg", "lastseg"])
+            tl = T if measure == "trail" else T - hs if measure == "total" else T - (hs - k)
+            tl = max(0, tl)
+            trail = bytes((i * 7 + (i >> 8) + 3) & 0xFF for i in range(tl))      # position-dependent: reordering shows
+            data = data0 + trail
+            n = len(data)
+            if truth: truth = dict(truth, trail_hex=hx(trail))
+            cutsets = [[],                                    # whole
+                       [hs],                                  # exactly at the request/data boundary
+                       [k] if k else [],                      # handshake completed by a segment that carries all the data
+                       [k, hs + tl // 2] if tl > 1 else [hs],  # ... that carries half of the data
+                       [hs + tl // 2] if tl > 1 else [],      # inside the data only
+                       list(range(1, hs)),                    # 1-byte mode up to the last handshake byte, which comes with all data
+                       list(range(1, hs + 1)),                # 1-byte handshake, data in one piece
+                       [hs] + list(range(hs + 1024, n, 1024)),  # data in 1 KiB pieces
+                       sorted({min(n - 1, max(1, hs + d)) for d in (-1, 1)}) if n > 2 else []]
+            if tier == "quick":
+                cutsets = [cutsets[0]] + rng.sample(cutsets[1:], 2)
+            for cuts in cutsets:
+                cuts = sorted({c for c in cuts if 0 < c < n})
+                c = dict(base); c["data_hex"] = hx(data); c["cuts"] = cuts
+                if truth: c["truth"] = truth
+                c["sched"] = self.rand_sched(rng, len(cuts) + 1) if len(cuts) < 40 else []
+                if rng.chance(0.2):
+                    c["eof"] = 1; c["eof_before_c"] = rng.randint(0, 2)
+                yield c
+
     def generate(self, rng, tier):
-        # round-robin so that every budget sees the same mix: 4 grammar/mutation/raw cases, 1 small-scope, 1 truncation
-        subs = [self.gen_random(rng, tier), self.gen_small(rng, tier), self.gen_canon(rng, tier)]
-        pattern = [0, 0, 1, 0, 0, 2]
-        alive = [True, True, True]
+        # round-robin so that every budget sees the same mix: grammar/mutation/raw, size classes, small-scope, truncation
+        subs = [self.gen_random(rng, tier), self.gen_small(rng, tier), self.gen_canon(rng, tier), self.gen_sizes(rng, tier)]
+        pattern = [0, 3, 1, 0, 3, 2, 0]
+        alive = [True, True, True, True]
         while True:
             for k in pattern:
                 if not alive[k]: k = 0
